@@ -6,6 +6,9 @@
 From QV Require Import Base.Res Base.Octets Model.ZoneTree Model.ZoneValid Spec.ZoneLookupS Spec.ZoneValidS
   Proofs.ZoneValidP.
 
+(* the shared runner (Extract/ExZone.v) also extracts the RdataSet buffer model: keep it in this cone *)
+From QV Require Model.RdataBuf.
+
 Definition req_transitive (req : N -> N -> bytes -> bytes -> bool) : Prop :=
   forall cls ty a b c, req cls ty a b = true -> req cls ty b c = true -> req cls ty a c = true.
 
